@@ -284,13 +284,27 @@ func buildReq(rs reqSpec, fields []fieldSpec) (*protocol.Request, param.Params) 
 				ct = strings.Replace(ct, "multipart/form-data", []string{"", "Multipart/Form-Data", "MULTIPART/form-data"}[rs.ctCase], 1)
 			}
 			req.Header.SetContentTypeBytes([]byte(ct))
-			setBody(req, mb.Bytes(), rs.stream)
+			setBodyMaybeBroken(req, mb.Bytes(), rs)
 		} else {
 			req.Header.SetContentTypeBytes([]byte([]string{"application/x-www-form-urlencoded", "Application/X-WWW-Form-Urlencoded", "APPLICATION/x-www-form-urlencoded; charset=UTF-8"}[rs.ctCase]))
-			setBody(req, []byte(f.Encode()), rs.stream)
+			setBodyMaybeBroken(req, []byte(f.Encode()), rs)
 		}
 	}
 	return req, ps
+}
+
+// setBodyMaybeBroken: the body as setBody gives it, or (rs.broken) a stream that fails
+// after broken-1 bytes.
+func setBodyMaybeBroken(req *protocol.Request, b []byte, rs reqSpec) {
+	if rs.stream && rs.broken > 0 {
+		n := rs.broken - 1
+		if n > len(b) {
+			n = len(b)
+		}
+		req.SetBodyStream(io.MultiReader(bytes.NewReader(b[:n]), failingReader{}), -1)
+		return
+	}
+	setBody(req, b, rs.stream)
 }
 
 // failingReader is the rest of a chunked body whose sender went away.
@@ -562,7 +576,7 @@ func genReqSpec(r *mon.Rand, fields []fieldSpec) reqSpec {
 	rs.multipart = r.Chance(3)
 	rs.stream = r.Chance(5)
 	rs.emptyJSON = len(rs.vals["json"]) == 0 && len(rs.vals["form"]) == 0 && r.Chance(4)
-	if rs.stream && len(rs.vals["json"]) > 0 && r.Chance(4) {
+	if rs.stream && (len(rs.vals["json"]) > 0 || len(rs.vals["form"]) > 0) && r.Chance(4) {
 		rs.broken = 1 + r.Intn(40)
 	}
 	if r.Chance(3) {
@@ -636,10 +650,10 @@ func judge(fields []fieldSpec, rs reqSpec, got map[string]string, err error) (st
 	if err != nil && strings.HasPrefix(err.Error(), "PANIC") {
 		return "bind-panic", err.Error()
 	}
-	if rs.stream && rs.broken > 0 && len(rs.vals["json"]) > 0 && rs.only == "" {
+	if rs.stream && rs.broken > 0 && (len(rs.vals["json"]) > 0 || len(rs.vals["form"]) > 0) && rs.only == "" {
 		// the body could not be read: that is not a request without a body
 		if err == nil {
-			return "body-read-error-lost", fmt.Sprintf("reading the streamed JSON body failed with %v but Bind returned nil; fields read back: %v", io.ErrUnexpectedEOF, got)
+			return "body-read-error-lost", fmt.Sprintf("reading the streamed JSON / form body failed with %v but Bind returned nil; fields read back: %v", io.ErrUnexpectedEOF, got)
 		}
 		return "", ""
 	}
@@ -721,6 +735,7 @@ func work(w *mon.W) {
 			rs.only = only
 			if only != "" {
 				rs.emptyJSON = false
+				rs.broken = 0
 			}
 			c.Detail = func() interface{} { return map[string]interface{}{"type": describe(fields), "request": rs.vals} }
 			var first map[string]string
